@@ -198,6 +198,102 @@ func init() {
 	}
 }
 
+// ---------------------------------------------------------------------------------------- C07
+// TL2 transcoders exist in meta.Function only when TL2 code is generated
+type objFnTL2 interface {
+	ReadResultTL1WriteResultTL2(tctx *basictl.TL2WriteContext, r []byte, w []byte) ([]byte, []byte, error)
+	ReadResultTL2WriteResultTL1(tctx *basictl.TL2ReadContext, r []byte, w []byte) ([]byte, []byte, error)
+	ReadResultTL2WriteResultJSON(tctx *basictl.TL2ReadContext, jctx *basictl.JSONWriteContext, r []byte, w []byte) ([]byte, []byte, error)
+	ReadResultJSONWriteResultTL2(jctx *basictl.JSONReadContext, tctx *basictl.TL2WriteContext, r []byte, w []byte) ([]byte, []byte, error)
+}
+
+func init() {
+	// ores <function name> <request TL1 boxed hex> <result TL1 hex> <typed object name | ->
+	// result: ok <consumed> <TL1 -> JSON -> TL1 bytes | err> j=.. t2=.. x=.. typed=..
+	//   j:     TL1->JSON->TL1 reproduces the consumed result bytes            (same | diff | err)
+	//   t2:    TL1->TL2->TL1 likewise                                          (same | diff | err | na)
+	//   x:     TL2->JSON equals TL1->JSON and JSON->TL2 equals TL1->TL2        (same | diff | err | na)
+	//   typed: a factory object of the result type decodes the result and writes the same JSON / TL1 (same | diff:<what> | na)
+	ops["ores"] = func(f []string) string {
+		fn := factory.CreateFunctionFromName(f[1])
+		if fn == nil {
+			return "driver-error no function " + f[1]
+		}
+		if _, err := fn.ReadTL1Boxed(unhex(f[2])); err != nil {
+			return "badrequest"
+		}
+		res := unhex(f[3])
+		rest, j, err := fn.ReadResultTL1WriteResultJSON(&basictl.JSONWriteContext{}, res, nil)
+		if err != nil {
+			return cls(err)
+		}
+		consumed := len(res) - len(rest)
+		used := res[:consumed]
+		out := "ok " + strconv.Itoa(consumed) + " "
+		js := "same"
+		_, backJ, err := fn.ReadResultJSONWriteResultTL1(&basictl.JSONReadContext{}, j, nil)
+		if err != nil {
+			out += "err"
+			js = "err"
+		} else {
+			out += hx(backJ)
+			if !bytes.Equal(backJ, used) {
+				js = "diff"
+			}
+		}
+		t2s, xs := "na", "na"
+		var t2 []byte
+		if ft, ok := interface{}(fn).(objFnTL2); ok && objHasTL2(f[1]) {
+			var e1, e2 error
+			_, t2, e1 = ft.ReadResultTL1WriteResultTL2(&basictl.TL2WriteContext{}, res, nil)
+			var back2 []byte
+			if e1 == nil {
+				_, back2, e2 = ft.ReadResultTL2WriteResultTL1(&basictl.TL2ReadContext{}, t2, nil)
+			}
+			switch {
+			case e1 != nil || e2 != nil:
+				t2s = "err"
+			case bytes.Equal(back2, used):
+				t2s = "same"
+			default:
+				t2s = "diff"
+			}
+			if e1 == nil {
+				_, j2, e3 := ft.ReadResultTL2WriteResultJSON(&basictl.TL2ReadContext{}, &basictl.JSONWriteContext{}, t2, nil)
+				_, t22, e4 := ft.ReadResultJSONWriteResultTL2(&basictl.JSONReadContext{}, &basictl.TL2WriteContext{}, j, nil)
+				switch {
+				case e3 != nil || e4 != nil:
+					xs = "err"
+				case bytes.Equal(j2, j) && bytes.Equal(t22, t2):
+					xs = "same"
+				default:
+					xs = "diff"
+				}
+			}
+		}
+		typed := "na"
+		if f[4] != "-" {
+			if obj := factory.CreateObjectFromName(f[4]); obj != nil {
+				if r2, err := obj.ReadTL1Boxed(res); err != nil || len(res)-len(r2) != consumed {
+					typed = "diff:read"
+				} else {
+					typed = "same"
+					if w, err := obj.WriteTL1BoxedGeneral(nil); err != nil || !bytes.Equal(w, used) {
+						if js == "same" { // the transcoder reproduced the bytes, the typed object does not
+							typed = "diff:tl1"
+						}
+					}
+					if tj, err := objWriteJSON(obj); err != nil || !bytes.Equal(tj, j) {
+						typed = "diff:json"
+					}
+					// (a result in TL2 is wrapped by ReadResultTL2/WriteResultTL2 in its own object layout: not comparable with obj.WriteTL2)
+				}
+			}
+		}
+		return out + " j=" + js + " t2=" + t2s + " x=" + xs + " typed=" + typed
+	}
+}
+
 // ---------------------------------------------------------------------------------------- C09
 func objReset(obj meta.Object) bool {
 	m := reflect.ValueOf(obj).MethodByName("Reset")
